@@ -183,6 +183,34 @@ pub fn permuted_tuples(a: &V, b: &V) -> bool {
     }
 }
 
+/// number of nodes of a value, counting stops beyond `cap`
+pub fn weight(v: &V, cap: usize) -> usize {
+    match v {
+        V::List(l) => {
+            let mut n = 1;
+            for x in l {
+                n += weight(x, cap);
+                if n > cap {
+                    return n;
+                }
+            }
+            n
+        }
+        V::Tuple(fs) | V::ModTuple(fs) => {
+            let mut n = 1;
+            for (_, x) in fs {
+                n += weight(x, cap);
+                if n > cap {
+                    return n;
+                }
+            }
+            n
+        }
+        V::Str(s) => 1 + s.len() / 16,
+        _ => 1,
+    }
+}
+
 pub struct Interp {
     pub steps: u64,
     /// set when an `==`/`!=`/`in` compared tuples that differ only in field order
@@ -192,7 +220,8 @@ pub struct Interp {
     pub trace: Vec<String>,
 }
 
-const STEP_LIMIT: u64 = 200_000;
+const STEP_LIMIT: u64 = 60_000;
+const SIZE_LIMIT: usize = 4096;
 
 fn render_scalar(v: &V) -> Result<String, Stop> {
     match v {
@@ -276,8 +305,16 @@ impl Interp {
             (Op::Sub, V::Float(a), V::Float(b)) => Ok(V::Float(a - b)),
             (Op::Mul, V::Float(a), V::Float(b)) => Ok(V::Float(a * b)),
             (Op::Div, V::Float(a), V::Float(b)) => Ok(V::Float(a / b)),
-            (Op::Add, V::Str(a), V::Str(b)) => Ok(V::Str(format!("{}{}", a, b))),
+            (Op::Add, V::Str(a), V::Str(b)) => {
+                if a.len() + b.len() > SIZE_LIMIT {
+                    return excluded("value larger than the reference size limit");
+                }
+                Ok(V::Str(format!("{}{}", a, b)))
+            }
             (Op::Add, V::List(a), V::List(b)) => {
+                if a.len() + b.len() > SIZE_LIMIT / 8 {
+                    return excluded("value larger than the reference size limit");
+                }
                 let mut v = a.clone();
                 v.extend(b.iter().cloned());
                 Ok(V::List(v))
@@ -319,8 +356,14 @@ impl Interp {
             },
             E::List(l) => {
                 let mut out = vec![];
+                let mut w = 0;
                 for x in l {
-                    out.push(self.eval(x, env)?);
+                    let v = self.eval(x, env)?;
+                    w += weight(&v, SIZE_LIMIT);
+                    if w > SIZE_LIMIT {
+                        return excluded("value larger than the reference size limit");
+                    }
+                    out.push(v);
                 }
                 Ok(V::List(out))
             }
@@ -330,6 +373,9 @@ impl Interp {
                     let v = self.eval(x, env)?;
                     if out.iter().any(|(k2, _)| k2 == k) {
                         return excluded("duplicate field name in a tuple literal");
+                    }
+                    if weight(&v, SIZE_LIMIT) > SIZE_LIMIT {
+                        return excluded("value larger than the reference size limit");
                     }
                     out.push((k.clone(), v));
                 }
@@ -521,7 +567,12 @@ impl Interp {
                         let mut out = String::new();
                         for ch in s.chars() {
                             match self.call(&c, vec![V::Str(ch.to_string())])? {
-                                V::Str(p) => out.push_str(&p),
+                                V::Str(p) => {
+                                    if out.len() + p.len() > SIZE_LIMIT {
+                                        return excluded("value larger than the reference size limit");
+                                    }
+                                    out.push_str(&p)
+                                }
                                 _ => return excluded("map over a string: callback result is not a string"),
                             }
                         }
@@ -644,6 +695,9 @@ impl Interp {
                     if i < holes {
                         out.push_str(&render_scalar(&vals[i])?);
                     }
+                    if out.len() > SIZE_LIMIT {
+                        return excluded("value larger than the reference size limit");
+                    }
                 }
                 Ok(V::Str(out))
             }
@@ -657,6 +711,9 @@ impl Interp {
                         Part::Expr(x) => {
                             let v = self.eval(x, &inner)?;
                             out.push_str(&render_scalar(&v)?);
+                            if out.len() > SIZE_LIMIT {
+                                return excluded("value larger than the reference size limit");
+                            }
                         }
                     }
                 }
